@@ -31,14 +31,14 @@ CHECKS = {
  'C04': dict(
    engine='genc-doc',
    category='translation_validation',
-   text='Second sentence of C04 (the emitted step function never reads or writes outside the arrays it declares), decided per emitted document for ALL contexts and ALL callback behaviours: every pointer/bounds/overflow/conversion check CBMC generates in the emitted uscxml_step(), executable-content functions and bit_* helpers with the concrete emitted tables; the dfcc frame of a contract on uscxml_step; life-cycle and dequeue-order postconditions; sizing facts of the generator. The unbounded DEQUEUE_EVENT loop is closed by a loop contract and a glue lemma. The first sentence (same trace as the interpreter) is NOT decided: the interpreter is C++ and out of reach of this technique.',
-   note='Trusted: CBMC 6.11, build of uscxml-transform from /repo. Assumed: callbacks honour const ctx and return OK or an error code; derived preconditions listed in the evidence; only the top machine of a file with nested invoked machines is validated; <foreach> bounded to 2 items in the harness.',
+   text='Second sentence of C04 (the emitted step function never reads or writes outside the arrays it declares), decided per emitted document for ALL contexts and ALL callback behaviours: every pointer/bounds/overflow/conversion check CBMC generates in the emitted uscxml_step(), executable-content functions and bit_* helpers with the concrete emitted tables; the dfcc frame of a contract on uscxml_step; life-cycle and dequeue-order postconditions; sizing facts of the generator. The unbounded DEQUEUE_EVENT loop is closed by a loop contract and a glue lemma. Of the first sentence, against the Recommendation's algorithm instead of the interpreter (which is C++ and out of reach): the configuration after every step equals a spec function of one microstep (optimal enabled transition set, exit set, entry set with history and default completion; engines/genc/spec_step.h) for every legal pre-state and every answer of is_matched/is_true; done events are raised exactly as 3.7 prescribes; for charts following a log convention (all generated charts) the onexit / transition / onentry content that runs is exactly exit set / transition set / entry set, in the prescribed order. Equality with the interpreter's own trace is NOT decided.',
+   note='Trusted: CBMC 6.11, build of uscxml-transform from /repo. Assumed: callbacks honour const ctx and return OK or an error code; derived preconditions listed in the evidence; machines nested in <invoke><content> are validated like documents of their own, those pulled in by src= are not; is_matched answers are a function of the transition and is_true answers of the condition text within one step; documents with nested histories are excluded from the spec-function clauses; <foreach> bounded to 2 items in the harness.',
    technique='CBMC code contracts (goto-instrument --dfcc --enforce-contract uscxml_step, loop contract via --loop-contracts-file) on the emitted C per document',
    design='3/C04'),
  'C05': dict(
    engine='genc-doc',
    category='translation_validation',
-   text='For each corpus document the tables embedded in the emitted C (order, parent, children, ancestors, type, completion, history completion, targets, transition type, exit sets, conflicts) are compared by CBMC with spec functions written from the Recommendation over an independent XML reading of that document; all inputs are constants, so each obligation is closed and CBMC acts as an evaluator with bounds checking. Validation of each emitted program against a spec - not a proof about Predicates.cpp for all documents (C++/DOM, out of reach). The Promela and VHDL copies of the tables are not covered.',
+   text='For each corpus document the tables embedded in the emitted C (order, parent, children, ancestors, type, completion, history completion, targets, transition type, exit sets, conflicts) are compared by CBMC with spec functions written from the Recommendation over an independent XML reading of that document; all inputs are constants, so each obligation is closed and CBMC acts as an evaluator with bounds checking. Validation of each emitted program against a spec - not a proof about Predicates.cpp for all documents (C++/DOM, out of reach). The Promela copy: the table-initialisation statements of the emitted Promela model are cut out mechanically, evaluated by CBMC and compared column by column with the C tables of the same document. The VHDL copy (equations in emitted VHDL text) is not covered.',
    note='Trusted: CBMC 6.11, python xml.etree reading + id-based matching of emitted states to document elements, spec_rec.h transcription. Conflict relation stated two-sided (ancestrally related sources with a parallel state between are left open); exit set/conflicts not demanded for the never-selected default transitions of history/initial.',
    technique='CBMC as bounds-checked evaluator of closed obligations: emitted C tables vs Recommendation-derived spec functions per document',
    design='3/C05'),
@@ -52,7 +52,7 @@ CHECKS = {
  'C17': dict(
    engine='pmlarms',
    category='proof',
-   text='Each operator arm of PromelaDataModel::evaluateExpr is extracted mechanically to C on every run and verified loop-free over the full 2^32 x 2^32 operand domain, once per arity the grammar produces: value equals C int arithmetic as the Promela manual defines it, an execution error is raised exactly for faulting operations (/ and % by zero, INT_MIN/-1), no arm takes an operand the parser did not supply, every operator of the property has an arm. Loop-free + full domain = complete proof of these per-arm contracts. Precedence/associativity (bison), operand order, variable storage and read-back are outside the reach of contracts on C text and are NOT claimed.',
+   text='Each operator arm of PromelaDataModel::evaluateExpr is extracted mechanically to C on every run and verified loop-free over the full 2^32 x 2^32 operand domain, once per arity the grammar produces: value equals C int arithmetic as the Promela manual defines it, an execution error is raised exactly for faulting operations (/ and % by zero, INT_MIN/-1), no arm takes an operand the parser did not supply, every operator of the property has an arm. Loop-free + full domain = complete proof of these per-arm contracts. Also under contract: the integer guards on an array index in getVariable/setVariable (an execution error exactly for index < 0 or index >= size, all ints) and Data::operator[](size_t) with the std::list abstracted to its length (the dereferenced iterator is element number index, never end(), for every list length and index; two loop contracts, no unwinding). Precedence/associativity (bison), operand order, the rest of variable storage and read-back are outside the reach of contracts on C text and are NOT claimed.',
    note='Trusted: extraction rules (pml_extract.py), spec pml_spec.h, Data(int)/dataToInt round trip, CBMC + z3 4.8.12 for the * / % arms. Assumed: integer-valued operands; left operand = textually first *opIter++ (unsequenced in C++); two\'s-complement wrap of + - *.',
    technique='CBMC (SAT, z3 for mult/div congruence) on mechanically extracted loop-free arms, full operand domain; native replay through the real interpreter',
    design='3/C17'),
